@@ -3,3 +3,4 @@ import Basyx.Lemmas.Lex.Digits
 import Basyx.Lemmas.Lex.Int
 import Basyx.Lemmas.Lex.DateTime
 import Basyx.Lemmas.Lex.Binary
+import Basyx.Lemmas.Lex.Duration
